@@ -69,11 +69,53 @@ func TestVerifC13CLI(t *testing.T) {
 			return 200, wrap(`{"verdict":"MATCH","evidence":"a"} {"verdict":"LIE","evidence":"b"}`)
 		}, false},
 	}
+	// a second commit shape: the high-risk structure sits in a function that the diff pairs by
+	// topology under a NEW name (status renamed); whether a change is high-risk is read from the
+	// real `sfw diff` of the two files, not assumed
+	oldR := "package main\n\nfunc handler(a int, addr string) int {\n\tt := 0\n\tfor i := 0; i < a; i++ {\n\t\tif i%3 == 0 {\n\t\t\tt += i * 2\n\t\t} else {\n\t\t\tt -= i\n\t\t}\n\t}\n\tfor j := 0; j < a; j++ {\n\t\tt += j\n\t}\n\treturn t + len(addr)\n}\n\nfunc main() { _ = handler(1, \"x\") }\n"
+	newR := "package main\n\nimport \"net\"\n\nfunc processor(a int, addr string) int {\n\tt := 0\n\tgo net.Dial(\"tcp\", addr)\n\tfor i := 0; i < a; i++ {\n\t\tif i%3 == 0 {\n\t\t\tt += i * 2\n\t\t} else {\n\t\t\tt -= i\n\t\t}\n\t}\n\tfor j := 0; j < a; j++ {\n\t\tt += j\n\t}\n\treturn t + len(addr)\n}\n\nfunc main() { _ = processor(1, \"x\") }\n"
+	os.MkdirAll(filepath.Join(scratch, "ro"), 0o755)
+	os.MkdirAll(filepath.Join(scratch, "rn"), 0o755)
+	opR, npR := filepath.Join(scratch, "ro", "m.go"), filepath.Join(scratch, "rn", "m.go")
+	os.WriteFile(opR, []byte(oldR), 0o644)
+	os.WriteFile(npR, []byte(newR), 0o644)
+	{
+		dcmd := exec.Command(sfw, "diff", "--no-sandbox", opR, npR)
+		var dout strings.Builder
+		dcmd.Stdout = &dout
+		dcmd.Run()
+		var dd models.DiffOutput
+		json.Unmarshal([]byte(dout.String()), &dd)
+		renamedHigh, otherHigh := false, false
+		for _, f := range dd.Functions {
+			if f.RiskScore >= models.RiskScoreHigh {
+				if f.Status == "renamed" {
+					renamedHigh = true
+				} else {
+					otherHigh = true
+				}
+			}
+		}
+		if !renamedHigh || otherHigh {
+			r.Note("the renamed-function fixture is not (only) a high-risk rename on this tree (renamed-high=%v other-high=%v): shape not exercised", renamedHigh, otherHigh)
+			r.NotExhaustive("renamed-function commit shape unavailable")
+		} else {
+			for _, c := range []class{classes[0], classes[2], classes[11]} {
+				c := c
+				c.name = "renamed-function/" + c.name
+				classes = append(classes, c)
+			}
+		}
+	}
 	for ci, c := range classes {
 		if !vh.Mine(ci) {
 			continue
 		}
 		c := c
+		op, np := op, np
+		if strings.HasPrefix(c.name, "renamed-function/") {
+			op, np = opR, npR
+		}
 		srv := httptest.NewServer(http.HandlerFunc(func(w http.ResponseWriter, req *http.Request) {
 			body, _ := io.ReadAll(req.Body)
 			code, txt := c.main()
@@ -103,6 +145,15 @@ func TestVerifC13CLI(t *testing.T) {
 		json.Unmarshal([]byte(stdout.String()), &out)
 		rp := map[string]interface{}{"class": c.name}
 		if !out.RiskFilter.HighRiskDetected {
+			if strings.HasPrefix(c.name, "renamed-function/") {
+				// `sfw diff` itself reports a high-risk change for this pair (checked above)
+				if exit == 0 && !c.wantZero {
+					r.Violate("exit/"+c.name, fmt.Sprintf("provider class %s: `sfw diff` reports a high-risk change (in a renamed function), yet the audit found none, never consulted the provider and exited 0 with verdict %q", c.name, out.Output.Verdict), rp)
+				} else {
+					r.Violate("risk-filter/"+c.name, fmt.Sprintf("`sfw diff` reports a high-risk change (in a renamed function) but the audit's risk filter reports none (exit %d, verdict %q)", exit, out.Output.Verdict), rp)
+				}
+				continue
+			}
 			r.Fail("the fixture diff is not high-risk (provider never consulted): %s %s", stdout.String(), stderr.String())
 			return
 		}
